@@ -16,17 +16,26 @@ INDEX_WRITERS = {
 TAXA_GROWERS = {"add_taxon", "__init__", "__deepcopy__"}
 
 
-def run(index, rep, tier):
-    rep.rule("R10.1", "the accession-index state is written only by TaxonNamespace.{__init__, add_taxon, remove_taxon, clear, taxon_bitmask} and nowhere outside the class")
-    rep.rule("R10.2", "the accession counter is only ever assigned 0 (constructor) or incremented by a positive constant in add_taxon; never decremented or reset")
-    rep.rule("R10.3", "add_taxon: the mutability test dominates the append; both index maps are written with the same index expression and the increment follows both; members enter the list only through add_taxon")
-    rep.rule("R10.4", "remove_taxon removes the taxon from the member list, both index maps and the bitmask memo on every normal path and touches nobody else's entries")
-    rep.rule("R10.5", "sort/reverse write only the member list")
-    rep.rule("R10.6", "bit -> taxon renderings go through the accession index, never through list position")
-    rep.rule("R10.7", "_lookup_label returns a Taxon / a list / None depending on first_match_only; every caller consumes the shape it asked for")
-    rep.rule("R10.8", "Taxon identity (hash/eq) reads no instance state, so relabelling cannot move a taxon's map entry and equal labels never share a bit")
-    tns = index.klass(TNS)
+def folding_rule(index, rep, rid):
+    folds = {}
+    fold_sites = [TM + ".Taxon._get_lower_cased_label@", TNS + "._lookup_label", "dendropy.dataio.nexusreader.NexusReader._parse_taxlabels_statement"]
+    for q in list(index.functions):
+        if q.startswith(TM + ".Taxon._get_lower_cased_label") or q in fold_sites:
+            fi = index.functions[q]
+            for c in calls_in(fi.node):
+                if isinstance(c.func, ast.Attribute) and c.func.attr in ("lower", "casefold", "upper") and not c.args:
+                    folds.setdefault(c.func.attr, []).append(fi.qualname.rsplit(".", 1)[1])
+    rep.floor(rid, "label-folding call sites", 3, sum(len(v) for v in folds.values()))
+    rep.check(len(folds) == 1, rid, TNS + "._lookup_label", "label folding methods %s" % {k: sorted(set(v)) for k, v in folds.items()}, "src/dendropy/datamodel/taxonmodel.py:1",
+              "labels are folded with the single method %s at every site" % sorted(folds),
+              "labels are case-folded with different methods at different sites (%s): the cached folded label and the folded query disagree for characters on which the methods differ, so a label no longer matches itself and duplicates are created" % {k: sorted(set(v)) for k, v in folds.items()})
 
+
+
+def index_state_rules(index, rep, remap):
+    """R10.1-R10.3 (optionally reported under other rule ids, for C01)."""
+    R = lambda r: remap.get(r, r)
+    tns = index.klass(TNS)
     # ---- R10.1 / R10.2
     nwr = 0
     for fi in list(index.functions.values()):
@@ -36,7 +45,7 @@ def run(index, rep, tier):
             nwr += 1
             in_class = fi.cls is not None and index.is_subclass(fi.cls, TNS) and isinstance(w.base, ast.Name) and w.base.id == "self"
             ok = in_class and fi.name in INDEX_WRITERS
-            rep.check(ok, "R10.1", fi.qualname, "%s %s.%s" % (w.kind, w.base_text, w.attr), fn_where(fi, w.stmt),
+            rep.check(ok, R("R10.1"), fi.qualname, "%s %s.%s" % (w.kind, w.base_text, w.attr), fn_where(fi, w.stmt),
                       "%s writes %s (%s)" % (fi.qualname, w.attr, INDEX_WRITERS.get(fi.name, "not an index-maintaining function")),
                       "%s writes the namespace's index state `%s` (%s): only %s may; a rebuilt or re-assigned index changes the bit of existing members"
                       % (fi.qualname, w.attr, norm_stmt(w.stmt), sorted(INDEX_WRITERS)))
@@ -48,13 +57,13 @@ def run(index, rep, tier):
                     ok2 = isinstance(w.stmt.op, ast.Add) and isinstance(v, ast.Constant) and isinstance(v.value, int) and v.value > 0 and fi.name == "add_taxon"
                 else:
                     ok2 = False
-                rep.check(ok2, "R10.2", fi.qualname, norm_stmt(w.stmt), fn_where(fi, w.stmt), "counter write `%s` in %s" % (norm_stmt(w.stmt), fi.name),
+                rep.check(ok2, R("R10.2"), fi.qualname, norm_stmt(w.stmt), fn_where(fi, w.stmt), "counter write `%s` in %s" % (norm_stmt(w.stmt), fi.name),
                           "`%s` in %s: the accession counter may only be set to 0 by the constructor and incremented by add_taxon; decrementing or resetting it re-issues a bit that a removed (or still present) taxon held" % (norm_stmt(w.stmt), fi.qualname))
         # dynamic writes
         for c in calls_in(fi.node):
             if isinstance(c.func, ast.Name) and c.func.id == "setattr" and len(c.args) >= 2 and isinstance(c.args[1], ast.Constant) and c.args[1].value in INDEX_STATE:
-                rep.check(False, "R10.1", fi.qualname, norm(c), fn_where(fi, c), "setattr on index state", "setattr writes index state outside the maintaining functions")
-    rep.floor("R10.1", "writes to the accession-index state", 12, nwr)
+                rep.check(False, R("R10.1"), fi.qualname, norm(c), fn_where(fi, c), "setattr on index state", "setattr writes index state outside the maintaining functions")
+    rep.floor(R("R10.1"), "writes to the accession-index state", 12, nwr)
 
     # ---- R10.3
     add = index.function(TNS + ".add_taxon")
@@ -66,7 +75,7 @@ def run(index, rep, tier):
 
     def mut_guard(n):
         return n.kind == "test" and norm(n.ast) == "self.is_mutable" and raises_in_branch(cfg, n, "f") is not None
-    rep.check(cfg.dominated_by(app, mut_guard), "R10.3", add.qualname, "is_mutable guard before append", fn_where(add, app.stmt),
+    rep.check(cfg.dominated_by(app, mut_guard), R("R10.3"), add.qualname, "is_mutable guard before append", fn_where(add, app.stmt),
               "add_taxon: `if not self.is_mutable: raise` dominates self._taxa.append",
               "add_taxon can append to the member list without passing the is_mutable test: an immutable namespace gains members")
     stores = [w for w in writes_in(add.node) if w.kind == "substore" and w.attr in ("_accession_index_taxon_map", "_taxon_accession_index_map")]
@@ -77,7 +86,7 @@ def run(index, rep, tier):
     if ok:
         idx_expr = norm(fwd[0].node.slice)
         ok = idx_expr == norm(rev[0].value) and norm(fwd[0].value) == norm(rev[0].node.slice) and idx_expr == "self._current_accession_count"
-    rep.check(ok, "R10.3", add.qualname, "paired index writes", fn_where(add),
+    rep.check(ok, R("R10.3"), add.qualname, "paired index writes", fn_where(add),
               "add_taxon: index->taxon and taxon->index use the same index `%s`" % idx_expr,
               "add_taxon writes the two index maps with different index expressions (%s vs %s): bit -> taxon and taxon -> bit disagree"
               % (norm(fwd[0].node.slice) if fwd else None, norm(rev[0].value) if rev else None))
@@ -87,7 +96,7 @@ def run(index, rep, tier):
         ids = {i.id for i in incs}
         okp = all(cfg.must_pass(x, lambda n: n.id in ids)[0] for x in wn) and \
             all(cfg.can_reach(i, lambda n, wn=wn: n in wn) is None for i in incs)
-        rep.check(okp, "R10.3", add.qualname, "increment after both writes", fn_where(add, incs[0].stmt),
+        rep.check(okp, R("R10.3"), add.qualname, "increment after both writes", fn_where(add, incs[0].stmt),
                   "add_taxon: the counter increment follows both map writes on every path",
                   "add_taxon increments the counter before/between the two map writes or not on every path: an index is skipped or issued twice")
     # members enter only via add_taxon
@@ -101,10 +110,25 @@ def run(index, rep, tier):
             if not grows:
                 continue
             ngrow += 1
-            rep.check(fi.name in TAXA_GROWERS, "R10.3", fi.qualname, norm_stmt(w.stmt), fn_where(fi, w.stmt),
+            rep.check(fi.name in TAXA_GROWERS, R("R10.3"), fi.qualname, norm_stmt(w.stmt), fn_where(fi, w.stmt),
                       "%s adds to the member list" % fi.name,
                       "%s adds to / rebinds the member list `_taxa` without going through add_taxon: the new member has no accession index (no bit) or bypasses the immutability test" % fi.qualname)
-    rep.floor("R10.3", "sites that grow the member list", 2, ngrow)
+    rep.floor(R("R10.3"), "sites that grow the member list", 2, ngrow)
+
+
+
+def run(index, rep, tier):
+    rep.rule("R10.1", "the accession-index state is written only by TaxonNamespace.{__init__, add_taxon, remove_taxon, clear, taxon_bitmask} and nowhere outside the class")
+    rep.rule("R10.2", "the accession counter is only ever assigned 0 (constructor) or incremented by a positive constant in add_taxon; never decremented or reset")
+    rep.rule("R10.3", "add_taxon: the mutability test dominates the append; both index maps are written with the same index expression and the increment follows both; members enter the list only through add_taxon")
+    rep.rule("R10.4", "remove_taxon removes the taxon from the member list, both index maps and the bitmask memo on every normal path and touches nobody else's entries")
+    rep.rule("R10.5", "sort/reverse write only the member list")
+    rep.rule("R10.6", "bit -> taxon renderings go through the accession index, never through list position")
+    rep.rule("R10.7", "_lookup_label returns a Taxon / a list / None depending on first_match_only; every caller consumes the shape it asked for")
+    rep.rule("R10.8", "Taxon identity (hash/eq) reads no instance state, so relabelling cannot move a taxon's map entry and equal labels never share a bit")
+    tns = index.klass(TNS)
+
+    index_state_rules(index, rep, {})
 
     # ---- R10.4
     rm = index.function(TNS + ".remove_taxon")
@@ -246,6 +270,25 @@ def run(index, rep, tier):
             ok = True
         rep.check(ok, "R10.7", lk.qualname, "return %s" % v, fn_where(lk, r), "_lookup_label returns `%s`%s" % (v, " under first_match_only" if under_flag else ""),
                   "_lookup_label returns a single taxon outside the first_match_only test")
+
+    # ---- R10.9 the call's setting overrides the namespace's
+    rep.rule("R10.9", "case sensitivity: a function taking is_case_sensitive consults the namespace's own setting only when the argument is None; label folding uses one and the same method everywhere")
+    npo = 0
+    for fi in index.methods_of(TNS):
+        if "is_case_sensitive" not in fi.all_params:
+            continue
+        cfg = cfg_of(fi)
+        for n in cfg.nodes:
+            if n.kind == "test" and norm(n.ast) == "self.is_case_sensitive":
+                npo += 1
+                reach = cfg.reach([cfg.entry], follow_exc=False,
+                                  edge_ok=lambda s_, l_, d_: not (s_.kind == "test" and norm(s_.ast) == "is_case_sensitive is None" and l_ == "t"))
+                ok = n not in reach
+                rep.check(ok, "R10.9", fi.qualname, "namespace setting consulted although the call gave one", fn_where(fi, n.stmt),
+                          "%s consults self.is_case_sensitive only under `is_case_sensitive is None`" % fi.name,
+                          "%s consults the namespace's is_case_sensitive on a path where the caller's explicit is_case_sensitive was not None: an explicit False on a case-sensitive namespace (or True on an insensitive one) is ignored and lookups return the wrong members" % fi.qualname)
+    rep.floor("R10.9", "tests of self.is_case_sensitive in functions taking the argument", 2, npo)
+    folding_rule(index, rep, "R10.9")
 
     # ---- R10.8
     for q in (TM + ".Taxon.__hash__", TM + ".Taxon.__eq__"):
